@@ -412,3 +412,30 @@ Section History.
 
   Definition edited (col : list N) (ops : list hop) : list N := fold_left edit_col ops col.
 End History.
+
+(* ---- several tables alive in one process, each with its own regex_flags ------
+   The matching oracle takes the table's case folding: matches2 true is
+   re.fullmatch with IGNORECASE (the default of the constructor), matches2 false
+   is case-sensitive matching (regex_flags=0).  A table's selections use its own
+   flag, whatever other tables did with the same pattern text before. *)
+
+Definition ftable := (bool * stable)%type.
+
+Section Multi.
+  Variable matches2 : bool -> N -> N -> bool.
+  Variable ord : list N -> list N.
+
+  Definition fviews (ft : ftable) (q : query) : hobs :=
+    HViews (rows_positions (matches2 (fst ft)) ord (snd ft) q)
+           (indices (matches2 (fst ft)) ord (snd ft) q)
+           (mask (matches2 (fst ft)) ord (snd ft) q).
+
+  (* a step: (which table, query) *)
+  Definition mstep (tabs : list ftable) (st : nat * query) : hobs :=
+    match nth_error tabs (fst st) with
+    | Some ft => fviews ft (snd st)
+    | None => HFail EKey
+    end.
+
+  Definition mrun (tabs : list ftable) (steps : list (nat * query)) : list hobs := map (mstep tabs) steps.
+End Multi.
